@@ -714,8 +714,20 @@ func c15ReplaceAll(r *fw.Rec, id, text string, f *ir.Func) {
 	cands = append(cands, termCands...)
 	full := f.LLString()
 	base := stripUseListOrders(full)
+	// a type and a value may be spelled alike (`%0 = type opaque` next to the
+	// local %0): the token count cannot tell them apart, such values are left out
+	typeSpelling := map[string]bool{}
+	if f.Parent != nil {
+		for _, t := range f.Parent.TypeDefs {
+			fw.Guard(func() { typeSpelling[t.String()] = true })
+		}
+	}
 	for _, v := range cands {
 		oldIdent := identOf(v)
+		if typeSpelling[oldIdent] {
+			r.Tally("rauw", "identifier-also-spells-a-type(not judged)")
+			continue
+		}
 		// all textual uses of the identifier before substitution (definition included)
 		usesBefore := countToken(base, oldIdent)
 		if usesBefore <= 1 {
